@@ -61,24 +61,47 @@ impl Prop for C01 {
                 prof("wild", 32_000),
                 prof("counters", 32_000),
                 prof("signals", 32_000),
+                prof("candidates", 40_000),
             ],
             Tier::Thorough => vec![
                 prof("const", 800_000),
                 prof("wild", 400_000),
                 prof("counters", 400_000),
                 prof("signals", 400_000),
+                prof("candidates", 400_000),
             ],
         }
     }
 
     fn strategy(profile: &str) -> BoxedStrategy<FwCase> {
+        if profile == "candidates" {
+            // machines with adversarial edits (as in C12): those that validation accepts must run
+            let mp = MachineParams { max_states: 3, dist: DistProfile::Wild, p_trans: [0.4; 13], p_counter: 0.5, ..MachineParams::default() };
+            let hp = HistParams { max_calls: 20, max_batch: 6, ..HistParams::default() };
+            return (
+                fw_case(1..=2, &mp, &hp, true, 0),
+                proptest::collection::vec(crate::props::c12::mutation_strategy(), 1..=2),
+            )
+                .prop_map(|(mut c, muts)| {
+                    let last = c.machines.len() - 1;
+                    c.machines[last] = crate::props::c12::mutate(&c.machines[last], &muts);
+                    c
+                })
+                .boxed();
+        }
         let (mp, hp, w) = params(profile);
         fw_case(0..=5, &mp, &hp, true, w)
     }
 
     fn check(case: &FwCase, obs: &mut Obs) -> Result<(), Failure> {
-        let machines = build_machines(&case.machines)
-            .unwrap_or_else(|e| panic!("generator produced a machine that Machine::new rejects: {e}"));
+        let machines = match build_machines(&case.machines) {
+            Ok(m) => m,
+            Err(_) => {
+                // only the 'candidates' profile proposes machines that validation may reject
+                obs.hit("candidate_rejected_by_validation");
+                return Ok(());
+            }
+        };
         let n = machines.len();
         let total_events: u64 = case.calls.iter().map(|c| c.events.len() as u64 + 1).sum();
         let budget = case.words.len() as u64 + 100_000 + 20_000 * total_events * (n as u64 + 1);
@@ -187,6 +210,7 @@ impl Prop for C01 {
             "saturated_counter",
             "zero_machines",
             "std_instant_clock",
+            "candidate_rejected_by_validation",
         ]
     }
 
